@@ -6,6 +6,7 @@
     bound (plus handcrafted and seeded random deeper programs) through the state machine, one primitive action per TLC
     step, and TLC checks in every reachable state: recorded = constructed-minus-consumed in program order, nothing
     recorded under stop_recording, no duplicates, only the innermost context changes, stack restored at every except.
+    QuantumTape contexts rejected at exit raise inside the state machine (dynamic unwinding), eager wrappers consume too.
 (C) spec -> code: every emitted behaviour is replayed: the driver builds the real quantum function from the AST and
     compares QueuingManager._active_contexts and every queue after EVERY primitive action, the term structure of every
     object and the final tape.  code -> spec: the calls to QueuingManager.append/remove, AnnotatedQueue.__enter__/
